@@ -3,6 +3,8 @@
 //! Part 1 (`validate.*`): every semantic string type against a reference predicate written from the
 //! documentation (`refpred.rs`): all byte strings up to length 3, structured random strings up to
 //! capacity + 2, round trips, composition, normalisation, short edit histories.
+//! Part 1b (`naming.scheme`): `path_for` / `extract_name_from_file` / `extract_name_from_path` of the
+//! named-concept naming scheme as pure functions and on the file system (listing by prefix and suffix).
 //! Part 2 (`isolation.*`): pairs of domain configurations (prefix relation x root relation) with a
 //! population in each, listing / opening / cleaning / shutting down in one domain must not see or
 //! touch the other; locations of everything created are checked in-process (scan) and on the
@@ -13,6 +15,7 @@ extern crate iceoryx2_bb_loggers;
 
 mod child;
 mod isolation;
+mod naming;
 mod pop;
 mod refpred;
 mod validation;
@@ -53,6 +56,7 @@ fn body(ctx: &mut Ctx) {
     validation::exhaustive(ctx, &known);
     validation::structured(ctx, &known);
     known.flush(ctx);
+    naming::scheme(ctx);
     isolation::cleanup_probe(ctx, &known);
     isolation::pairs(ctx, &known);
     known.flush(ctx);
